@@ -268,6 +268,12 @@ class BvModels(Models):
                     bits += list(xb[1])
                 if bits is not None and len(bits) == W[m.group(1)]:
                     return bv(bits)
+        m = re.search(r"core::num::<impl (u\d+)>::to_le_bytes$", n)
+        if m and args:
+            a = ip.deconst(ip.deref_val(st, args[0]))
+            xb = as_bv(a, W[m.group(1)]) if a is not None and a[0] in ("bv", "i") else None
+            if xb is not None:
+                return ("arr", tuple(bv(xb[1][8 * j:8 * j + 8]) for j in range(W[m.group(1)] // 8)))
         if self.watch and any(re.search(self.watch, nm) for nm in names):
             self.logged.append((names[0], [ip.deconst(ip.deref_val(st, a)) for a in args]))
             if self.reduce_limbs:
